@@ -477,7 +477,7 @@ def mutated_requests(thorough=False):
         "expect-other": ([b"Expect: 200-ok", b"Content-Length: 3"], body3),
         "conn-close": ([b"Connection: close"], b""), "conn-keep-alive": ([b"Connection: keep-alive"], b""),
     }
-    if thorough:
+    if True:
         fr.update({
             "conn-close-list-first": ([b"Connection: close, x-opt"], b""), "conn-close-list-last": ([b"Connection: x-opt, close"], b""),
             "conn-close-list-nosp": ([b"Connection: x-opt,close"], b""), "conn-close-second-line": ([b"Connection: x-opt", b"Connection: close"], b""),
@@ -500,7 +500,7 @@ def mutated_requests(thorough=False):
         "chunk-ext-token": b"3;a=b\r\nabc\r\n0\r\n\r\n", "chunk-ext-quoted": b'3;a="b c"\r\nabc\r\n0\r\n\r\n', "chunk-body-looks-like-request": b"%x\r\n" % len(SMUGGLE) + SMUGGLE + b"\r\n0\r\n\r\n",
         "chunk-zero-then-data": b"0\r\n\r\n3\r\nabc\r\n0\r\n\r\n", "chunk-size-semicolon-first": b";3\r\nabc\r\n0\r\n\r\n",
     }
-    if thorough:
+    if True:
         ch.update({"chunk-ext-quoted-pair": b'3;a="b\\"c"\r\nabc\r\n0\r\n\r\n', "chunk-ext-quoted-backslash": b'3;a="b\\\\c"\r\nabc\r\n0\r\n\r\n'})
     for k, v in ch.items():
         yield k, req(P, TE, v)
